@@ -6,6 +6,7 @@
 package main
 
 import (
+	_ "embed"
 	"encoding/json"
 	"fmt"
 	"go/ast"
@@ -78,9 +79,65 @@ func funcKey(d *ast.FuncDecl) string {
 	return d.Name.Name
 }
 
+// softDepth > 0: we are inside a `soft` block; a failure is local to its fact group
+var softDepth int
+
+type softFail string
+
 func fail(f string, a ...any) {
+	if softDepth > 0 {
+		panic(softFail(fmt.Sprintf(f, a...)))
+	}
 	fmt.Fprintf(os.Stderr, "extract: "+f+"\n", a...)
 	os.Exit(2)
+}
+
+// soft runs one fact group.  If the source no longer has the shape the group's extraction code
+// recognises (fail → panic), the failure is recorded in facts.json (`failed`), and the values of the
+// group fall back to the committed defaults (tools/extract/defaults.json = the values of the pinned
+// tree): the Lean model still builds, the checks of the properties that depend on the group report a
+// broken obligation `A.fact <group>` (vcheck/core.py FACT_DEPS), and the correspondence tests then
+// show whether the stale value still describes the code.
+func soft(F *facts, group string, fn func()) {
+	softDepth++
+	defer func() {
+		softDepth--
+		if r := recover(); r != nil {
+			sf, ok := r.(softFail)
+			if !ok {
+				// an unexpected AST shape (nil dereference, failed type assertion) inside the group
+				sf = softFail(fmt.Sprint(r))
+			}
+			F.Failed[group] = string(sf)
+			fmt.Fprintf(os.Stderr, "extract: fact group %s NOT extracted (defaults used): %s\n", group, string(sf))
+		}
+	}()
+	fn()
+}
+
+//go:embed defaults.json
+var defaultsJSON []byte
+
+type defaultsT struct {
+	Consts       map[string]string   `json:"consts"`
+	Bools        map[string]bool     `json:"bools"`
+	Ints         map[string]int      `json:"ints"`
+	Modes        string              `json:"modes_lean"`
+	Structural   string              `json:"structural_lean"`
+	Locks        map[string][]string `json:"locks"`
+	FsWriters    []string            `json:"fs_writers"`
+	ConfigWrites []string            `json:"config_writes"`
+	ModeBodies   map[string]string   `json:"modes"`
+}
+
+func loadDefaults() *defaultsT {
+	d := &defaultsT{}
+	if len(defaultsJSON) > 2 {
+		if err := json.Unmarshal(defaultsJSON, d); err != nil {
+			fail("defaults.json: %v", err)
+		}
+	}
+	return d
 }
 
 // constString resolves a string literal or an identifier naming a package-level string
@@ -168,8 +225,9 @@ type facts struct {
 	ConfigWrites []string            `json:"config_writes"`
 	Modes        map[string]string   `json:"modes"`
 	Notes        []string            `json:"notes"`
-	Funcs        map[string]string   `json:"funcs"` // Lean text of every transliterated function (funcs.go)
+	Funcs        map[string]string   `json:"funcs"`        // Lean text of every transliterated function (funcs.go)
 	FuncsFailed  map[string]string   `json:"funcs_failed"` // functions funcs.go could not transliterate, with the reason
+	Failed       map[string]string   `json:"failed"`       // fact groups whose source shape was not recognised (defaults were used), with the reason
 }
 
 func main() {
@@ -179,12 +237,48 @@ func main() {
 	repo, out := os.Args[1], os.Args[2]
 	snaps := loadPkg(filepath.Join(repo, "snaps"))
 	match := loadPkg(filepath.Join(repo, "match"))
-	F := &facts{Consts: map[string]string{}, Bools: map[string]bool{}, Ints: map[string]int{}, Locks: map[string][]string{}, Modes: map[string]string{}}
+	F := &facts{Consts: map[string]string{}, Bools: map[string]bool{}, Ints: map[string]int{}, Locks: map[string][]string{}, Modes: map[string]string{}, Failed: map[string]string{}}
 	os.MkdirAll(out, 0o755)
+	D := loadDefaults()
 
 	extractConsts(snaps, match, F)
-	modes := extractModes(snaps, F)
-	structural := extractStructural(snaps, match, F)
+	// values a failed group did not produce come from the defaults
+	for k, v := range D.Consts {
+		if _, ok := F.Consts[k]; !ok {
+			F.Consts[k] = v
+		}
+	}
+	for k, v := range D.Bools {
+		if _, ok := F.Bools[k]; !ok {
+			F.Bools[k] = v
+		}
+	}
+	for k, v := range D.Ints {
+		if _, ok := F.Ints[k]; !ok {
+			F.Ints[k] = v
+		}
+	}
+	var modes, structural string
+	soft(F, "modes", func() { modes = extractModes(snaps, F) })
+	if _, bad := F.Failed["modes"]; bad {
+		modes = D.Modes
+		F.Modes = D.ModeBodies
+	}
+	soft(F, "structural", func() { structural = extractStructural(snaps, match, F) })
+	if _, bad := F.Failed["structural"]; bad {
+		structural = D.Structural
+		F.Locks, F.FsWriters, F.ConfigWrites = D.Locks, D.FsWriters, D.ConfigWrites
+	}
+	if len(os.Args) > 3 && os.Args[3] == "-write-defaults" {
+		if len(F.Failed) > 0 {
+			fmt.Fprintf(os.Stderr, "extract: cannot write defaults: %v\n", F.Failed)
+			os.Exit(2)
+		}
+		nd := defaultsT{Consts: F.Consts, Bools: F.Bools, Ints: F.Ints, Modes: modes, Structural: structural, Locks: F.Locks, FsWriters: F.FsWriters, ConfigWrites: F.ConfigWrites, ModeBodies: F.Modes}
+		b, _ := json.MarshalIndent(nd, "", " ")
+		write(os.Args[4], string(b)+"\n")
+		return
+	}
 
 	write(filepath.Join(out, "Consts.lean"), renderConsts(F))
 	write(filepath.Join(out, "Modes.lean"), modes)
@@ -213,64 +307,70 @@ func mustString(p *pkgInfo, e ast.Expr, what string) string {
 
 func extractConsts(snaps, match *pkgInfo, F *facts) {
 	C := F.Consts
-	C["endSeq"] = mustString(snaps, snaps.values["endSequence"], "endSequence")
-	C["snapsExt"] = mustString(snaps, snaps.values["snapsExt"], "snapsExt")
-	C["newLineSymbol"] = mustString(snaps, snaps.values["newLineSymbol"], "newLineSymbol")
-	C["errorSymbol"] = mustString(snaps, snaps.values["errorSymbol"], "errorSymbol")
-	C["updateSymbol"] = mustString(snaps, snaps.values["updateSymbol"], "updateSymbol")
-	C["skipSymbol"] = mustString(snaps, snaps.values["skipSymbol"], "skipSymbol")
-	for name, v := range snaps.values {
-		if str, ok := snaps.constString(v); ok {
-			C["go_"+name] = str
-		} else if c, ok := v.(*ast.CallExpr); ok {
-			switch selName(c.Fun) {
-			case "colors.Sprint":
-				if str, ok := snaps.constString(c.Args[1]); ok {
-					C["go_"+name] = str
-				}
-			case "errors.New":
-				if str, ok := snaps.constString(c.Args[0]); ok {
-					C["go_"+name] = str
+	soft(F, "constants", func() {
+		C["endSeq"] = mustString(snaps, snaps.values["endSequence"], "endSequence")
+		C["snapsExt"] = mustString(snaps, snaps.values["snapsExt"], "snapsExt")
+		C["newLineSymbol"] = mustString(snaps, snaps.values["newLineSymbol"], "newLineSymbol")
+		C["errorSymbol"] = mustString(snaps, snaps.values["errorSymbol"], "errorSymbol")
+		C["updateSymbol"] = mustString(snaps, snaps.values["updateSymbol"], "updateSymbol")
+		C["skipSymbol"] = mustString(snaps, snaps.values["skipSymbol"], "skipSymbol")
+		for name, v := range snaps.values {
+			if str, ok := snaps.constString(v); ok {
+				C["go_"+name] = str
+			} else if c, ok := v.(*ast.CallExpr); ok {
+				switch selName(c.Fun) {
+				case "colors.Sprint":
+					if str, ok := snaps.constString(c.Args[1]); ok {
+						C["go_"+name] = str
+					}
+				case "errors.New":
+					if str, ok := snaps.constString(c.Args[0]); ok {
+						C["go_"+name] = str
+					}
 				}
 			}
 		}
-	}
-	for _, need := range []string{"addedMsg", "updatedMsg", "skippedMsg", "errSnapNotFound", "errInvalidJSON", "arrowSymbol", "bulletSymbol", "enterSymbol", "successSymbol"} {
-		if _, ok := C["go_"+need]; !ok {
-			fail("package value %s not found or not constant", need)
+		for _, need := range []string{"addedMsg", "updatedMsg", "skippedMsg", "errSnapNotFound", "errInvalidJSON", "arrowSymbol", "bulletSymbol", "enterSymbol", "successSymbol"} {
+			if _, ok := C["go_"+need]; !ok {
+				fail("package value %s not found or not constant", need)
+			}
 		}
-	}
-	{
+	})
+	soft(F, "noParamsWarning", func() {
 		cs := callsIn(snaps.fn("matchSnapshot"), "colors.Sprint")
 		if len(cs) != 1 {
 			fail("matchSnapshot: expected one colors.Sprint (the no-params warning)")
 		}
 		C["go_noParamsWarning"] = mustString(snaps, cs[0].Args[1], "no-params warning")
-	}
+	})
 	// endSequenceByteSlice must be []byte(endSequence)
-	if c, ok := snaps.values["endSequenceByteSlice"].(*ast.CallExpr); !ok || len(c.Args) != 1 || selName(c.Args[0]) != "endSequence" {
-		fail("endSequenceByteSlice is not []byte(endSequence)")
-	}
-	// defaultConfig{snapsDir: "..."}
-	if cl, ok := snaps.values["defaultConfig"].(*ast.CompositeLit); ok {
-		C["defaultSnapsDir"] = ""
-		for _, el := range cl.Elts {
-			kv, ok := el.(*ast.KeyValueExpr)
-			if !ok {
-				fail("defaultConfig: positional element")
-			}
-			k := selName(kv.Key)
-			switch k {
-			case "snapsDir":
-				C["defaultSnapsDir"] = mustString(snaps, kv.Value, "defaultConfig.snapsDir")
-			default:
-				// any other pre-set default changes behaviour the model does not know
-				fail("defaultConfig sets unexpected field %s", k)
-			}
+	soft(F, "endSequenceByteSlice", func() {
+		if c, ok := snaps.values["endSequenceByteSlice"].(*ast.CallExpr); !ok || len(c.Args) != 1 || selName(c.Args[0]) != "endSequence" {
+			fail("endSequenceByteSlice is not []byte(endSequence)")
 		}
-	} else {
-		fail("defaultConfig is not a composite literal")
-	}
+	})
+	// defaultConfig{snapsDir: "..."}
+	soft(F, "defaultConfig", func() {
+		if cl, ok := snaps.values["defaultConfig"].(*ast.CompositeLit); ok {
+			C["defaultSnapsDir"] = ""
+			for _, el := range cl.Elts {
+				kv, ok := el.(*ast.KeyValueExpr)
+				if !ok {
+					fail("defaultConfig: positional element")
+				}
+				k := selName(kv.Key)
+				switch k {
+				case "snapsDir":
+					C["defaultSnapsDir"] = mustString(snaps, kv.Value, "defaultConfig.snapsDir")
+				default:
+					// any other pre-set default changes behaviour the model does not know
+					fail("defaultConfig sets unexpected field %s", k)
+				}
+			}
+		} else {
+			fail("defaultConfig is not a composite literal")
+		}
+	})
 	// escape / unescape: for idx, s := range ss { if s == A { ss[idx] = B } }
 	esc := func(fname string) (cmp, asg string) {
 		fn := snaps.fn(fname)
@@ -307,8 +407,10 @@ func extractConsts(snaps, match *pkgInfo, F *facts) {
 		}
 		return
 	}
-	C["escapeFrom"], C["escapeTo"] = esc("escapeEndChars")
-	C["unescapeFrom"], C["unescapeTo"] = esc("unescapeEndChars")
+	soft(F, "escape", func() {
+		C["escapeFrom"], C["escapeTo"] = esc("escapeEndChars")
+		C["unescapeFrom"], C["unescapeTo"] = esc("unescapeEndChars")
+	})
 
 	one := func(fn *ast.FuncDecl, callee string, arg int, what string) string {
 		cs := callsIn(fn, callee)
@@ -317,11 +419,13 @@ func extractConsts(snaps, match *pkgInfo, F *facts) {
 		}
 		return mustString(snaps, cs[0].Args[arg], what)
 	}
-	C["addFmt"] = one(snaps.fn("addNewSnapshot"), "fmt.Fprintf", 1, "addNewSnapshot format")
-	C["cleanFmt"] = one(snaps.fn("examineSnaps"), "fmt.Fprintf", 1, "examineSnaps format")
-	C["idFmt"] = one(snaps.fn("syncRegistry.getTestID"), "fmt.Sprintf", 0, "getTestID format")
-	C["occFmt"] = one(snaps.fn("snapshotOccurrenceFMT"), "fmt.Sprintf", 0, "snapshotOccurrenceFMT format")
-	{
+	soft(F, "addFmt", func() { C["addFmt"] = one(snaps.fn("addNewSnapshot"), "fmt.Fprintf", 1, "addNewSnapshot format") })
+	soft(F, "cleanFmt", func() { C["cleanFmt"] = one(snaps.fn("examineSnaps"), "fmt.Fprintf", 1, "examineSnaps format") })
+	soft(F, "idFmt", func() { C["idFmt"] = one(snaps.fn("syncRegistry.getTestID"), "fmt.Sprintf", 0, "getTestID format") })
+	soft(F, "occFmt", func() {
+		C["occFmt"] = one(snaps.fn("snapshotOccurrenceFMT"), "fmt.Sprintf", 0, "snapshotOccurrenceFMT format")
+	})
+	soft(F, "matcherErrFmt", func() {
 		var fmts []string
 		for _, k := range []string{"matchJSON", "matchYAML", "matchStandaloneJSON"} {
 			fmts = append(fmts, one(snaps.fn(k), "fmt.Sprintf", 0, k+" matcher error format"))
@@ -330,9 +434,9 @@ func extractConsts(snaps, match *pkgInfo, F *facts) {
 			fail("matcher error formats differ between entry points: %q", fmts)
 		}
 		C["matcherErrFmt"] = fmts[0]
-	}
-	// getTestID (clean.go): "[Test" prefix, " - " separator
-	{
+	})
+	// getTestID (clean.go): header prefix, " - " separator
+	soft(F, "getTestID", func() {
 		fn := snaps.fn("getTestID")
 		hp := callsIn(fn, "bytes.HasPrefix")
 		ix := callsIn(fn, "bytes.Index")
@@ -348,11 +452,11 @@ func extractConsts(snaps, match *pkgInfo, F *facts) {
 		}
 		C["headerPrefix"] = lit(hp[0].Args[1])
 		C["idSep"] = lit(ix[0].Args[1])
-	}
+	})
 	// testSkipped: strings.Split(testID, " - ")[0]
-	C["skipSep"] = one(snaps.fn("testSkipped"), "strings.Split", 1, "testSkipped separator")
+	soft(F, "skipSep", func() { C["skipSep"] = one(snaps.fn("testSkipped"), "strings.Split", 1, "testSkipped separator") })
 	// constructFilename: "_%d", ReplaceAll(tName, "/", "_")
-	{
+	soft(F, "constructFilename", func() {
 		fn := snaps.fn("constructFilename")
 		ra := callsIn(fn, "strings.ReplaceAll")
 		if len(ra) != 1 {
@@ -360,22 +464,24 @@ func extractConsts(snaps, match *pkgInfo, F *facts) {
 		}
 		C["saReplaceOld"] = mustString(snaps, ra[0].Args[1], "ReplaceAll old")
 		C["saReplaceNew"] = mustString(snaps, ra[0].Args[2], "ReplaceAll new")
-		var lits []string
+		// the ordinal placeholder: the only string literal of the function that contains a verb (how the
+		// file name is assembled around it is pinned by the tie theorem constructFilename_tied, not here)
+		var verbs []string
 		ast.Inspect(fn.Body, func(nd ast.Node) bool {
-			if as, ok := nd.(*ast.AssignStmt); ok && as.Tok == token.ADD_ASSIGN {
-				lits = append(lits, selName(as.Lhs[0])+"+="+exprText(snaps, as.Rhs[0]))
+			if bl, ok := nd.(*ast.BasicLit); ok && bl.Kind == token.STRING {
+				if v, err := strconv.Unquote(bl.Value); err == nil && strings.Contains(v, "%") {
+					verbs = append(verbs, v)
+				}
 			}
 			return true
 		})
-		want := []string{"filename+=\"_%d\"", "filename+=snapsExt+c.extension"}
-		if strings.Join(lits, ";") != strings.Join(want, ";") {
-			F.Notes = append(F.Notes, "constructFilename suffix assembly changed: "+strings.Join(lits, ";"))
-			fail("constructFilename: suffix assembly changed: %v", lits)
+		if len(verbs) != 1 {
+			fail("constructFilename: expected one format literal, found %q", verbs)
 		}
-		C["saSuffix"] = "_%d"
-	}
+		C["saSuffix"] = verbs[0]
+	})
 	// MatchStandaloneJSON default extension (both entry points must agree)
-	{
+	soft(F, "standaloneJSONExt", func() {
 		var exts []string
 		for _, k := range []string{"Config.MatchStandaloneJSON", "MatchStandaloneJSON"} {
 			fn := snaps.fn(k)
@@ -390,9 +496,9 @@ func extractConsts(snaps, match *pkgInfo, F *facts) {
 			fail("MatchStandaloneJSON default extension: %v", exts)
 		}
 		C["saJSONExt"] = exts[0]
-	}
+	})
 	// defaultPrettyJSONOptions
-	{
+	soft(F, "prettyOptions", func() {
 		F.Bools["prettySortKeys"] = false
 		C["prettyIndent"] = ""
 		F.Ints["prettyWidth"] = 0
@@ -421,9 +527,9 @@ func extractConsts(snaps, match *pkgInfo, F *facts) {
 				fail("defaultPrettyJSONOptions: unknown field %s", selName(kv.Key))
 			}
 		}
-	}
+	})
 	// setJSONOptions (match/utils.go)
-	{
+	soft(F, "sjsonOptions", func() {
 		F.Bools["sjsonReplaceInPlace"] = false
 		F.Bools["sjsonOptimistic"] = false
 		if u, ok := match.values["setJSONOptions"].(*ast.UnaryExpr); ok {
@@ -443,17 +549,19 @@ func extractConsts(snaps, match *pkgInfo, F *facts) {
 		} else if match.values["setJSONOptions"] != nil {
 			fail("setJSONOptions shape")
 		}
-	}
+	})
 	// diff context
-	if v, ok := snaps.values["context"]; ok {
-		n, err := strconv.Atoi(exprText(snaps, v))
-		if err != nil {
-			fail("context not literal")
+	soft(F, "diffContext", func() {
+		if v, ok := snaps.values["context"]; ok {
+			n, err := strconv.Atoi(exprText(snaps, v))
+			if err != nil {
+				fail("context not literal")
+			}
+			F.Ints["diffContext"] = n
+		} else {
+			fail("context const missing")
 		}
-		F.Ints["diffContext"] = n
-	} else {
-		fail("context const missing")
-	}
+	})
 }
 
 func exprText(p *pkgInfo, e ast.Expr) string {
